@@ -441,6 +441,10 @@ def run(tier):
         'rule': 'instances of every NITF 2.1/2.0 element class (defaults + random accepted values: edge-of-width integers incl. negatives, strings up to the width, '
                 'enumerations; file headers with 0-4 item arrays; image subheaders with 1-12 bands incl. the >9 extension, LUTs with 1-3 tables, 0-9 comments, '
                 'conditional IGEOLO; mask tables of 1-12 blocks; user headers with unknown TREs); a separate stream of values that do not fit; '
+                'registered TREs: payload values generated from each translated description (constants of every condition round robin + other text, '
+                'mask bits at random, loop counts cycling through 1, 2, 0, 3 and 4..12, lengths 0 / 1 / 2 / 5 / maximum, integers at both ends of the '
+                'width incl. negatives, text empty / one character / full width, bytes random / 00 / FF / ASCII, floats incl. infinities and -0), '
+                'until every condition was seen true and false (5..14 payloads per TRE quick, 200+ thorough); one right-justified-text variant per TRE; '
                 'distinct = element classes instantiated; non-trivial = the instance encodes to at least one byte',
         'samples': [f'{l}: {inst.to_bytes()[:48]!r}' for l, inst in insts[:3] if not isinstance(inst, Exception)],
         'stats': stats,
@@ -451,7 +455,15 @@ def run(tier):
     chk.assumptions += [
         'reflection-based translator tables_nitf.py (kinds/widths read from descriptors and _lengths on every run)',
         'classes with hand-written byte logic (listed under translator.overrides) enter the model as opaque raw fields: their internal layout is covered by the byte-level oracle only',
-        'TREs: only captured payloads found under tests/data are replayed; TRE control flow is not modelled',
+        'registered TREs: the field layout (widths, conditions, loops, computed lengths) of every registered TRE is translated from the AST of the TRE '
+        'modules by translate/tables_tre.py on every run and each description is kernel-checked well formed; the fidelity of the translator is '
+        'not proved - it is checked on every run by the payload cross-check (values generated from the descriptions, encoded by the Lean codec, '
+        'decoded by sarpy and compared field by field / byte by byte; see coverage.tre_coverage for what was exercised)',
+        'TRE text fields are modelled as ASCII (acceptance refuses bytes >= 128); ieee754_binary32 fields as 4 opaque bytes (NaN payloads are '
+        'not generated: CPython quiets signalling NaNs on unpack); non-digit bytes in a field read by int() make sarpy refuse, the model reads 0 '
+        '(such payloads are not generated)',
+        'translate/tre_snapshot.json (the TRE layouts of the pinned commit) is the reference layout for the search; it was taken from sarpy '
+        'itself, not transcribed from STDI-0002',
         "Python's '{:0wd}' / '{:ws}' formatting is specified by Spec.FieldFmt.encInt / encStr and validated by this correspondence",
         'standard-side lengths (MIL-STD-2500C) are a hand transcription',
     ]
